@@ -71,6 +71,22 @@ def mtHistory : List Op :=
 
 def mtWorld : World := run exH id World.init mtHistory
 
+/-! Port edit (F-C05-portedit): the multi-token packet is delivered to C with `port := "NFT"`;
+    the NFT application decodes the payload (same protobuf layout) and mints an NFT voucher. -/
+def mpktNft : Packet := { mpkt with port := "NFT" }
+
+def portHistory : List Op :=
+  clients ++
+  [.mtIssue "A" "alice" "gold".toList,
+   .mtMint "A" "alice" "gold".toList "bar".toList true 9 "alice",
+   .tx "A" (.mtTransfer "gold".toList "bar".toList "alice" "carol" "C" "" "" 4 ""),
+   .update "C" "A" 9 110,
+   .tx "C" (.recvPacket mpktNft (.honest "A" 9 (.commit mpkt.key)) 9 ""),
+   .update "A" "C" 9 120,
+   .tx "A" (.acknowledgement mpkt (.ackOk "01") (.honest "C" 9 (.ack mpkt.key)) 9)]
+
+def portWorld : World := run exH id World.init portHistory
+
 /-- results of every step of a history -/
 def results (ops : List Op) : List Res :=
   (ops.foldl (fun (acc : World × List Res) op => let r := step exH id acc.1 op; (r.1, acc.2 ++ [r.2])) (World.init, [])).2
